@@ -7,6 +7,7 @@ PROP_MODULES = {
     'C20': ['contracts.builders', 'contracts.shared_grid', 'contracts.c03_grid', 'contracts.c04_meta', 'contracts.c08_creator', 'contracts.c13_expiry', 'contracts.c16_limits', 'contracts.c20_conditional'],
     'C17': ['contracts.builders', 'contracts.shared_grid', 'contracts.c03_grid', 'contracts.c17_upstream'],
     'C10': ['contracts.builders', 'contracts.shared_grid', 'contracts.c03_grid', 'contracts.c04_meta', 'contracts.c16_limits', 'contracts.c20_conditional', 'contracts.c10_auth', 'contracts.c14_merge'],
+    'C11': ['contracts.builders', 'contracts.shared_grid', 'contracts.c03_grid', 'contracts.c04_meta', 'contracts.c11_seed'],
     'C15': ['contracts.builders', 'contracts.c15_async'],
     'C14': ['contracts.builders', 'contracts.c14_merge'],
     'C16': ['contracts.builders', 'contracts.shared_grid', 'contracts.c03_grid', 'contracts.c04_meta', 'contracts.c16_limits'],
@@ -36,6 +37,18 @@ NOT_APPLICABLE = {
 }
 
 MANIFEST_META = {
+    'C11': dict(
+        text='Proof on the real seeder code: SeedProgress.can_skip is exactly "current is behind old" for progress paths of '
+             'any length (first differing position decides, a prefix or the path itself is never skipped); limit_sub_bbox is '
+             'the exact intersection (one-step coverage lemma); MetaGrid.get_affected_level_tiles/_tile_iter list the '
+             'whole meta-aligned block between the corners of the bbox, row by row, None outside the grid; in '
+             'TileWalker._walk (all paths of one loop iteration) a non-intersecting sub tile is neither recursed into nor '
+             'processed, recursion uses the limited bbox, level+1 and all_subtiles == (intersection == CONTAINS), and a '
+             'StopProcess out of the recursion leaves the interrupted sub tile on the progress path.',
+        note='the whole-traversal conclusion (every selected tile requested, union of interrupted runs) is a stated lemma over '
+             'these per-step facts, not a mechanised induction; worker processes, coverage geometry predicates, '
+             '_filter_subtiles, the duplicate filter and the progress-file pickle round trip are outside; step_down is '
+             'inlined through an @contextmanager split'),
     'C15': dict(
         text='Proof for EVERY arrival order (an arbitrary injective index sequence of unbounded length, no enumeration): '
              'ThreadPool._get_results yields the values of indices next, next+1, ... without gap, duplicate or reordering '
